@@ -85,6 +85,10 @@ def h_matrix_svd(ctx, m, n, with_cap):
     W = U if m <= n else V.T
     w_asc = np.array([s[i] * s[i] for i in range(k - 1, -1, -1)], dtype=C.dtype)
     expect(ctx, 'eigh', C, (w_asc, W[:, ::-1].copy()))
+    if m == n:
+        # the other Gram matrix too (square case): a change that factorises A^T A must
+        # run into wrong factors, not into an unmodelled call
+        expect(ctx, 'eigh', A.T @ A, (w_asc, V.T[:, ::-1].copy()))
     for i in range(k):
         ctx.register_root(s[i] * s[i], 2, s[i])
     e = ctx.real('e')
